@@ -181,6 +181,8 @@ mod trusted_runtime_host;
 mod tx;
 #[cfg(not(target_arch = "wasm32"))]
 pub mod validated_workspace_patch;
+#[cfg(feature = "echo_verif")]
+pub mod verif;
 mod warp_state;
 mod witness;
 mod witnessed_suffix;
